@@ -96,3 +96,26 @@ Theorem C06_fd_mismatch_aborts_and_releases : forall prio sa dest data now m b,
   f_rcv (fnode22 (process_tp_cm22 prio sa dest data now m)) = tdel (f_rcv m) h.
 Proof. exact eom_status_mismatch_delivers_nothing. Qed.
 Print Assumptions C06_fd_mismatch_aborts_and_releases.
+
+From J1939P Require NoOversleep NoOversleep22.
+(* T06.9: after one pass of the transport layer the wake-up time the job thread sleeps until is not later than the deadline of
+   ANY receive or send session still in a table, whatever its state and whatever the pass did — so every deadline
+   (time-out, burst, BAM packet, hold refresh) is served by a pass that starts at most the scheduling latency after it *)
+Theorem C06_job_thread_never_sleeps_past_a_deadline : forall n now,
+  tnodup (n_rcv n) -> tnodup (n_snd n) ->
+  match flat (dll_job n now (fun n' nw' => Done n' nw')) with
+  | (n', _, RDone nw') => nw' <= now + 5000000 /\ n_timers n' = n_timers n /\
+                          NoOversleep.rcv_covered n' nw' /\ NoOversleep.snd_covered n' nw'
+  | (_, _, RRaise _) => True
+  end.
+Proof. exact NoOversleep.dll_job_wakeup_covers_every_deadline. Qed.
+Print Assumptions C06_job_thread_never_sleeps_past_a_deadline.
+
+Theorem C06_fd_job_thread_never_sleeps_past_a_deadline : forall m now,
+  tnodup (f_rcv m) -> tnodup (f_mpg m) -> tnodup (f_snd m) ->
+  match flat22 (dll_job22 m now (fun m' nw' => Done m' nw')) with
+  | (m', _, RDone nw') => nw' <= now + 5000000 /\ NoOversleep22.covered22 m' nw'
+  | (_, _, RRaise _) => True
+  end.
+Proof. exact NoOversleep22.dll_job22_wakeup_covers_every_deadline. Qed.
+Print Assumptions C06_fd_job_thread_never_sleeps_past_a_deadline.
